@@ -1,0 +1,166 @@
+//! Verification hooks (cargo feature `verif-hooks`, off by default).
+//!
+//! An in-memory event sink with a global sequence counter, plus named probe
+//! points that an external conformance harness can gate. Events are emitted
+//! *inside* the critical section that makes a state change visible, so the
+//! `seq` order is the linearization order of the instrumented object. With the
+//! feature off this module does not exist and no call site is compiled.
+
+use std::collections::HashMap;
+use std::sync::atomic::{AtomicBool, AtomicU64, Ordering};
+use std::sync::{Condvar, Mutex, OnceLock};
+use std::time::{Duration, Instant};
+
+static ENABLED: AtomicBool = AtomicBool::new(false);
+static SEQ: AtomicU64 = AtomicU64::new(0);
+static NEXT_TID: AtomicU64 = AtomicU64::new(1);
+
+thread_local! {
+    static TID: std::cell::Cell<u64> = const { std::cell::Cell::new(0) };
+}
+
+fn sink() -> &'static Mutex<Vec<String>> {
+    static S: OnceLock<Mutex<Vec<String>>> = OnceLock::new();
+    S.get_or_init(|| Mutex::new(Vec::new()))
+}
+
+/// Turn event recording on or off (off at start-up).
+pub fn enable(on: bool) {
+    ENABLED.store(on, Ordering::SeqCst);
+}
+
+pub fn is_enabled() -> bool {
+    ENABLED.load(Ordering::Relaxed)
+}
+
+/// Small per-thread id (assigned on first use, or set explicitly).
+pub fn tid() -> u64 {
+    TID.with(|t| {
+        if t.get() == 0 {
+            t.set(NEXT_TID.fetch_add(1, Ordering::Relaxed) + 1000);
+        }
+        t.get()
+    })
+}
+
+pub fn set_tid(id: u64) {
+    TID.with(|t| t.set(id));
+}
+
+/// Append one event. `fields` is the inside of a JSON object without braces,
+/// e.g. `"ev":"ack","o":3`. The sink lock orders `seq` with the append.
+pub fn ev(fields: String) {
+    if !is_enabled() {
+        return;
+    }
+    let mut g = sink().lock().unwrap_or_else(|e| e.into_inner());
+    let seq = SEQ.fetch_add(1, Ordering::SeqCst);
+    g.push(format!("{{\"seq\":{seq},\"t\":{},{fields}}}", tid()));
+}
+
+/// Drain the recorded events (ordered by `seq`).
+pub fn take() -> Vec<String> {
+    std::mem::take(&mut *sink().lock().unwrap_or_else(|e| e.into_inner()))
+}
+
+// ---------------------------------------------------------------------------
+// Probe points: a probe is a no-op unless the harness has closed a gate with
+// that name, in which case the calling thread (or task) parks until released.
+// Gates are only ever placed outside the library's own locks.
+
+#[derive(Default)]
+struct Gates {
+    closed: HashMap<String, bool>,
+    parked: HashMap<String, u64>,
+}
+
+fn gates() -> &'static (Mutex<Gates>, Condvar) {
+    static G: OnceLock<(Mutex<Gates>, Condvar)> = OnceLock::new();
+    G.get_or_init(|| (Mutex::new(Gates::default()), Condvar::new()))
+}
+
+/// Close the named gate: the next thread reaching `probe(name)` parks.
+pub fn gate(name: &str) {
+    let (m, _) = gates();
+    m.lock().unwrap().closed.insert(name.to_string(), true);
+}
+
+/// Open the named gate and wake everything parked on it.
+pub fn release(name: &str) {
+    let (m, cv) = gates();
+    m.lock().unwrap().closed.remove(name);
+    cv.notify_all();
+}
+
+pub fn release_all() {
+    let (m, cv) = gates();
+    m.lock().unwrap().closed.clear();
+    cv.notify_all();
+}
+
+/// Wait until at least `n` threads are parked at `name`; false on timeout.
+pub fn await_parked(name: &str, n: u64, timeout: Duration) -> bool {
+    let (m, cv) = gates();
+    let deadline = Instant::now() + timeout;
+    let mut g = m.lock().unwrap();
+    loop {
+        if g.parked.get(name).copied().unwrap_or(0) >= n {
+            return true;
+        }
+        let now = Instant::now();
+        if now >= deadline {
+            return false;
+        }
+        g = cv.wait_timeout(g, deadline - now).unwrap().0;
+    }
+}
+
+/// Blocking probe point.
+pub fn probe(name: &str) {
+    if !is_enabled() {
+        return;
+    }
+    let (m, cv) = gates();
+    let mut g = m.lock().unwrap();
+    if !g.closed.get(name).copied().unwrap_or(false) {
+        return;
+    }
+    *g.parked.entry(name.to_string()).or_insert(0) += 1;
+    cv.notify_all();
+    while g.closed.get(name).copied().unwrap_or(false) {
+        g = cv.wait(g).unwrap();
+    }
+    if let Some(c) = g.parked.get_mut(name) {
+        *c -= 1;
+    }
+    cv.notify_all();
+}
+
+/// Async probe point: polls the gate with short sleeps so it never holds a
+/// runtime worker hostage.
+pub async fn probe_async(name: &str) {
+    if !is_enabled() {
+        return;
+    }
+    {
+        let (m, cv) = gates();
+        let mut g = m.lock().unwrap();
+        if !g.closed.get(name).copied().unwrap_or(false) {
+            return;
+        }
+        *g.parked.entry(name.to_string()).or_insert(0) += 1;
+        cv.notify_all();
+    }
+    loop {
+        tokio::time::sleep(Duration::from_millis(1)).await;
+        let (m, cv) = gates();
+        let mut g = m.lock().unwrap();
+        if !g.closed.get(name).copied().unwrap_or(false) {
+            if let Some(c) = g.parked.get_mut(name) {
+                *c -= 1;
+            }
+            cv.notify_all();
+            return;
+        }
+    }
+}
